@@ -39,6 +39,9 @@ var oddSnippets = []string{
 	"func ch17(a, b chan int, done <-chan struct{}) { for { select { case v := <-a: _ = v; case b <- 1: case <-done: return; default: } }; }\nfunc d17(fs []func()) { for _, f := range fs { defer f(); defer func() { f() }(); go func() { f() }() }; for i := 0; i < 3; i++ { func() { defer println(i) }() } }",
 	// same-named function-local types of very different sizes, ranged by value / as arrays / passed to closures
 	"func lt21a(k int) int {\n\ttype rec struct{ a [200]int }\n\txs := make([]rec, 2)\n\tvar arr [4]rec\n\tn := 0\n\tfor _, x := range xs {\n\t\tn += x.a[0]\n\t}\n\tfor _, x := range arr {\n\t\tn += x.a[0]\n\t}\n\treturn n + k\n}\n\nfunc lt21b(k int) int {\n\ttype rec struct{ a [1]int }\n\txs := make([]rec, 2)\n\tvar arr [4]rec\n\tn := 0\n\tfor _, x := range xs {\n\t\tn += x.a[0]\n\t}\n\tfor _, x := range arr {\n\t\tn += x.a[0]\n\t}\n\treturn n + k\n}\n\ntype rec21 [1024]int\n\nfunc lt21c(p rec21) int {\n\ttype rec21 [2]int\n\tvar q rec21\n\tfor _, v := range [3]rec21{} {\n\t\tq = v\n\t}\n\treturn q[0] + p[0]\n}",
+	// inside generic functions: local and anonymous struct types (and arrays of them) with fields of the
+	// type-parameter type, ranged by value, passed by value, compared (types whose size go/types cannot compute)
+	"func g22[T any](xs []T, x T) int {\n\ttype loc struct {\n\t\tf T\n\t\tn int\n\t}\n\tvar arr [4]loc\n\tvar anon [2]struct{ v T }\n\tn := 0\n\tfor _, v := range arr {\n\t\t_ = v\n\t\tn++\n\t}\n\tfor _, v := range anon {\n\t\t_ = v\n\t\tn++\n\t}\n\tfor _, v := range []loc{{f: x}} {\n\t\t_ = v\n\t}\n\tls := []struct{ a [8]T }{}\n\tfor _, v := range ls {\n\t\t_ = v\n\t}\n\tfor _, v := range xs {\n\t\t_ = v\n\t}\n\treturn n\n}\n\nfunc h22[T any](p struct{ a [16]T }, q [3]struct{ v T }) {}\n\nfunc cmp22[T any](a struct{ v T }, i int64, j int32) bool { return int32(i) < j }\n\nfunc use22() { _ = g22([]int{1}, 2); h22(struct{ a [16]int }{}, [3]struct{ v int }{}); _ = cmp22(struct{ v string }{}, 1, 2) }",
 	// imports with aliases, dot and blank
 	"",
 	// struct tags, embedded fields, anonymous structs
